@@ -111,10 +111,12 @@ def build(t):
         return lp.Ptuple(keep([B(x) for x in t[1]]), rep(t[2]))
     if k == 'pseed':
         rp = t[2]
-        cls = {'prand': lp.Prand, 'pxrand': lp.Pxrand, 'pshuffle': lp.Pshuffle}[rp[0]]
+        cls = {'prand': lp.Prand, 'pxrand': lp.Pxrand, 'pshuffle': lp.Pshuffle, 'pwrand': None}[rp[0]]
         def seed(sd):
             return float(sd[1:]) if isinstance(sd, str) else int(sd)
         sd = lp.Pseq([seed(x) for x in t[1][1:]], 1) if isinstance(t[1], list) else seed(t[1])
+        if rp[0] == 'pwrand':
+            return fp.Pseed(sd, lp.Pwrand([B(x) for x in rp[1]], rp[3], rep(rp[2])))
         return fp.Pseed(sd, cls([B(x) for x in rp[1]], rep(rp[2])))
     if k == 'switch':
         return lp.Pswitch([B(x) for x in t[1]], B(t[2]))
